@@ -43,6 +43,10 @@ def frameOps (fx : Bool) (ws : List String) : Option String :=
         | .err _ => "err"
         | .crash s _ => "crash:" ++ s.label)
     | _, _, _, _, _ => some "bad-op"
+  | ["prim", name] =>
+    some (match FrameCrash.sourceFacts.find? (fun p => p.1 == name) with
+      | some p => p.2
+      | none => "absent")
   | ["falloc", proto, flags, op, h] =>
     -- allocation class of one parse: the model counts the `make`/`string` calls sized from the wire
     match proto.toNat?, flags.toNat?, op.toNat?, bytes h with
